@@ -19,7 +19,7 @@ import threading
 import time
 
 from . import shrink
-from .core import ROOT, env_seed, func_adl_src, mix
+from .core import ROOT, IsolationError, env_seed, func_adl_src, isolated, mix
 
 WORKERS = int(os.environ.get("VERIF_WORKERS", "16"))
 CHUNK_TIMEOUT = 300
@@ -32,11 +32,16 @@ def _init_worker(engine_name):
     import importlib
 
     _ENGINE = importlib.import_module(engine_name)
+    # every run is forked off this worker: keep the pages it shares with its children clean
+    import gc
+
+    gc.collect()
+    gc.freeze()
 
 
 def _run_one(engine, prop, seed, tier, fault_free):
     case = engine.generate(prop, seed, tier, fault_free=fault_free)
-    r = engine.execute(case)
+    r = isolated(engine.execute, case) if getattr(engine, "ISOLATE", True) else engine.execute(case)
     r["seed"] = seed
     r["fault_free"] = fault_free
     return r
@@ -52,6 +57,24 @@ def _run_chunk(prop, tier, seeds, fault_free, keep_samples):
                 r["sample_case"] = _ENGINE.generate(prop, s, tier, fault_free=fault_free)
             out.append(r)
         return out
+    finally:
+        faulthandler.cancel_dump_traceback_later()
+
+
+def _shrink_job(prop, tier, seed, fault_free, cls):
+    faulthandler.dump_traceback_later(4 * CHUNK_TIMEOUT, exit=True)
+    try:
+        case = _ENGINE.generate(prop, seed, tier, fault_free=fault_free)
+        small, sv, n_exec = shrink.minimise(_ENGINE, case, cls)
+        return case, small, sv, n_exec
+    finally:
+        faulthandler.cancel_dump_traceback_later()
+
+
+def _exec_job(case):
+    faulthandler.dump_traceback_later(CHUNK_TIMEOUT, exit=True)
+    try:
+        return isolated(_ENGINE.execute, case)
     finally:
         faulthandler.cancel_dump_traceback_later()
 
@@ -167,6 +190,21 @@ def main(prop, engine, argv, quick_runs=4000, thorough_budget=900, selftest_seed
     if a.replay:
         return replay_file(engine, prop, a.replay)
     if a.digests:  # used by the determinism self-test from another interpreter / hash seed
+        if a.digests.startswith("n="):  # n=<count>: the first <count> self-test seeds, via the pool
+            n = int(a.digests[2:])
+            seeds = [mix(env_seed(), prop, "selftest-full", i) for i in range(n)]
+            pool = _pool(engine)
+            try:
+                order = list(reversed(seeds)) if WORKERS % 2 else seeds
+                k = max(1, n // (3 * WORKERS))
+                futs = [pool.submit(_digest_chunk, prop, tier, order[i:i + k]) for i in range(0, n, k)]
+                d = {}
+                for x in _collect(futs, CHUNK_TIMEOUT + 30):
+                    d.update(x)
+            finally:
+                pool.shutdown(wait=True, cancel_futures=True)
+            print(json.dumps({str(s): d[s] for s in seeds}))
+            return 0
         seeds = [int(x) for x in a.digests.split(",")]
         print(json.dumps({str(s): _run_one(engine, prop, s, tier, False)["log_digest"]
                           for s in seeds}))
@@ -295,7 +333,7 @@ def _main(prop, engine, tier, seed0, runs, budget, selftest_seeds, t0, a, techni
         regress = []
         for path in corpus:
             case = json.load(open(path))
-            r = engine.execute(case)
+            r = pool.submit(_exec_job, case).result(timeout=CHUNK_TIMEOUT + 30)
             if r["violation"] is not None:
                 regress.append((path, r["violation"]))
         agg_ff, agg_fi = Agg(), Agg()
@@ -308,23 +346,36 @@ def _main(prop, engine, tier, seed0, runs, budget, selftest_seeds, t0, a, techni
             _batch(prop, engine, tier, pool, _seed_stream(seed0, prop, "ff"), True, agg_ff, d1, runs)
             d2 = t0 + budget * 0.9
             _batch(prop, engine, tier, pool, _seed_stream(seed0, prop, "fi"), False, agg_fi, d2, runs)
-    finally:
-        pool.shutdown(wait=False, cancel_futures=True)
-    wall_search = time.time() - t0
+        wall_search = time.time() - t0
 
-    # ---- findings ----------------------------------------------------------------------------
-    found = []
-    by_class = {}
-    for seed, ff, v in agg_ff.violations + agg_fi.violations:
-        by_class.setdefault(shrink.family(v["class"]), []).append((seed, ff, v))
-    exit_code = 0
-    out_dir = os.path.join(ROOT, "replays", prop)
+        # ---- findings ------------------------------------------------------------------------
+        found = []
+        by_class = {}
+        for seed, ff, v in agg_ff.violations + agg_fi.violations:
+            by_class.setdefault(shrink.family(v["class"]), []).append((seed, ff, v))
+        exit_code = 0
+        out_dir = os.path.join(ROOT, "replays", prop)
+        jobs = {}
+        for cls, lst in sorted(by_class.items()):
+            lst.sort(key=lambda t: t[0])
+            seed, ff, v = lst[0]
+            jobs[cls] = pool.submit(_shrink_job, prop, tier, seed, ff, v["class"])
+        shrunk = {}
+        for cls, fut in jobs.items():
+            try:
+                shrunk[cls] = fut.result(timeout=4 * CHUNK_TIMEOUT + 60)
+            except cf.TimeoutError:
+                raise HarnessError(f"shrinking {cls} did not finish in time")
+            except cf.process.BrokenProcessPool:
+                raise HarnessError("a worker process died while shrinking")
+            except Exception as e:
+                raise HarnessError(f"shrinking {cls} failed: {e!r}"[:500])
+    finally:
+        pool.shutdown(wait=True, cancel_futures=True)
     for cls, lst in sorted(by_class.items()):
-        lst.sort(key=lambda t: t[0])
         seed, ff, v = lst[0]
         sub = sorted({x[2]["class"] for x in lst})
-        case = engine.generate(prop, seed, tier, fault_free=ff)
-        small, sv, n_exec = shrink.minimise(engine, case, v["class"])
+        case, small, sv, n_exec = shrunk[cls]
         sig = engine.signature(small, sv)
         small["violation"] = sv
         small["signature"] = sig
